@@ -47,6 +47,17 @@ func GenC08(t *rapid.T) *C08Case {
 			}
 		}
 	}
+	if oneIn(t, 12, "deepchain") {
+		// nesting beyond any plausible recursion guard: a chain of 20-70 containers
+		chainCfg := cfg
+		chainCfg.LongLists = false
+		inner := GenChain(t, chainCfg, 70)
+		if root.K == KList {
+			root.L = append(root.L, inner)
+		} else if _, dup := root.Field("chain"); !dup {
+			root.O = append(root.O, Pair{"chain", inner})
+		}
+	}
 	c := &C08Case{Root: root}
 	if drawBool(t, "variant") {
 		c.Build = 1 + genRaw(t)
